@@ -146,13 +146,13 @@ def pipeline(spec, pid, tier, seed, replay, keep, t0, no_evidence):
                 sys.path.insert(0, VERIF)
                 tr = importlib.import_module("translate")
                 gen_info = tr.regenerate(st, spec.GEN)
-            proof = leanp.prove(pid, spec.PROP_MODULE, getopt(spec, "EXTRA_AUDIT_MODULES", ()), thorough=(tier == "thorough"))
+            proof = leanp.prove(pid, spec.PROP_MODULE, getopt(spec, "EXTRA_AUDIT_MODULES", ()), thorough=(tier == "thorough"), model=getopt(spec, "MODEL", None))
         timings["translate_prove_s"] = round(time.time() - t, 2)
         # ---- harness ----
         t = time.time()
         harness = spec.build(st)
         timings["harness_build_s"] = round(time.time() - t, 2)
-        model = ModelRunner(spec.MODEL) if getopt(spec, "MODEL", None) and os.path.exists(leanp.DRIVER) else None
+        model = ModelRunner(spec.MODEL) if getopt(spec, "MODEL", None) and proof.get("driver_ok") else None
         if getopt(spec, "MODEL", None) and model is None:
             log("model driver missing (lean build failed): correspondence runs without the model side")
 
